@@ -193,6 +193,11 @@ func (i membershipFactory) New(ctx context.Context) gossip.Task {
 	a := ctx.Value("agent").(*gossip.Agent)
 	b := ctx.Value("batch").(*protocol.BatchSnapshots)
 
+	// peers are not trusted: a batch without (valid) snapshots carries nothing to do
+	if !validBatch(b) {
+		return func() error { return errorNoSnapshots }
+	}
+
 	s := b.Snapshots[0]
 
 	QedAuditorBatchesReceivedTotal.Inc()
